@@ -39,6 +39,7 @@ type IOCase struct {
 	ZeroReadAt      []int  `json:"zero_read_at,omitempty"`
 	EOFWithData     bool   `json:"eof_with_data,omitempty"`
 	FailAfter       int    `json:"fail_after"`           // -1: no hard read fault
+	Transient       string `json:"transient,omitempty"`  // "", EINTR, EAGAIN: the fault at fail_after happens once, then reading goes on
 	OpenFault       string `json:"open_fault,omitempty"` // notexist | perm | isdir
 	StdinNoise      string `json:"stdin_noise,omitempty"`
 	StdoutFailAfter int    `json:"stdout_fail_after"` // -1: stdout never fails
@@ -148,7 +149,7 @@ func (c *IOCase) argsFor(file string) []string {
 }
 
 func (c *IOCase) plan(data []byte) simio.ReadPlan {
-	return simio.ReadPlan{Data: data, Chunk: c.Chunk, K: c.K, Seed: c.ChunkSeed, ZeroReadAt: c.ZeroReadAt, EOFWithData: c.EOFWithData, FailAfter: c.FailAfter}
+	return simio.ReadPlan{Data: data, Chunk: c.Chunk, K: c.K, Seed: c.ChunkSeed, ZeroReadAt: c.ZeroReadAt, EOFWithData: c.EOFWithData, FailAfter: c.FailAfter, Transient: c.Transient}
 }
 
 func runJpgo(c *IOCase) (res ioResult) {
@@ -196,7 +197,7 @@ type ioStats struct {
 	bytes                                                                                                           uint64
 	ioEvents                                                                                                        uint64
 	faultIgnoredButCorrect                                                                                          int
-	envCases                                                                                                        int
+	envCases, transient                                                                                             int
 }
 
 var iostats ioStats
@@ -224,7 +225,8 @@ func runIOCase(c *IOCase) *RunReport {
 		iostats.noise++
 	}
 	openFault := c.Channel == "file" && c.OpenFault != ""
-	hard := w.C.HardReadErrors > 0 || (openFault && w.C.Opens > 0)
+	hard := w.C.HardReadErrors > 0 || w.C.TransientReadErrors > 0 || (openFault && w.C.Opens > 0)
+	iostats.transient += w.C.TransientReadErrors
 	stdoutFault := w.Stdout.Failed
 	okExpected := ref.ok && !openFault
 	switch {
@@ -259,6 +261,9 @@ func runIOCase(c *IOCase) *RunReport {
 	faultKind := "fault-free"
 	if hard {
 		faultKind = "hard-read-fault"
+		if w.C.TransientReadErrors > 0 && w.C.HardReadErrors == 0 {
+			faultKind = "transient-read-fault"
+		}
 	}
 	if openFault {
 		faultKind = "open-fault:" + c.OpenFault
@@ -350,7 +355,9 @@ func (c *IOCase) describe() string {
 	if c.EOFWithData {
 		s += " data+EOF"
 	}
-	if c.FailAfter >= 0 {
+	if c.FailAfter >= 0 && c.Transient != "" {
+		s += fmt.Sprintf(" one_%s_after=%d", c.Transient, c.FailAfter)
+	} else if c.FailAfter >= 0 {
 		s += fmt.Sprintf(" EIO_after=%d", c.FailAfter)
 	}
 	if c.OpenFault != "" {
@@ -518,7 +525,7 @@ func genIOWorkload(r *gen.Rng) (expr, text string) {
 		valid = r.Pick([]string{`{"id":9007199254740993,"items":[{"id":9007199254740993,"v":"x"},{"id":5,"v":"y"}],"nums":[9007199254740993,1e21,123456789012345678901234567890,0.1,1e-7,-0,4294967296,1.0,100e-2]}`,
 			`{"nums":[18446744073709551616,9223372036854775807,-9223372036854775808,3.0,2.50,1E3],"objs":[{"k":9007199254740993,"s":"a"},{"k":9007199254740992,"s":"b"}],"n":9007199254740993}`})
 	case x < 80:
-		valid = r.Pick([]string{"{}", "[]", "null", "0", "\"s\"", "true", "[1,2,3]", "{\"a\":{\"b\":[1,{\"c\":\"é\\n\"}]}}", "-0.5e2", "{\"nums\":[3,1,2],\"s\":\"x\"}", "[[],[[]]]", " 7 "})
+		valid = r.Pick([]string{"{}", "[]", "null", "0", "\"s\"", "true", "[1,2,3]", "{\"a\":{\"b\":[1,{\"c\":\"é\\n\"}]}}", "-0.5e2", "{\"nums\":[3,1,2],\"s\":\"x\"}", "[[],[[]]]", " 7 ", "12345", "-17.25", "1234567890123", "31.4159e-1"})
 	case x < 92:
 		valid = bigText(r, []int{400, 520, 3000, 4090, 4200, 9000}[r.Intn(6)])
 	default:
@@ -667,6 +674,18 @@ func plansFor(r *gen.Rng, expr, text string, full bool) []IOCase {
 				out = append(out, c)
 			}
 		}
+	}
+	// transient read faults: one Read fails with EINTR / EAGAIN after k bytes, the next ones
+	// deliver the rest (a program may give up or retry; if it carries on it must neither
+	// lose nor repeat bytes)
+	for i, k := range pos {
+		if i >= 2 && !full {
+			break
+		}
+		c := withChunk(b, r, i+k+1)
+		c.FailAfter = k
+		c.Transient = []string{"EINTR", "EAGAIN"}[(i+k)%2]
+		out = append(out, c)
 	}
 	// open faults and channel confusion
 	f := b
@@ -819,6 +838,7 @@ func ioWorker(tier string, master uint64, from, to int, maxWall time.Duration, r
 	st.Faults["hard_read_error_at_offset_0"] = uint64(s.errAtStart)
 	st.Faults["hard_read_error_on_last_byte"] = uint64(s.errLastByte)
 	st.Faults["hard_read_error_after_all_bytes_before_EOF"] = uint64(s.errAfterAll)
+	st.Faults["transient_read_errors_EINTR_EAGAIN"] = uint64(s.transient)
 	st.Faults["zero_byte_reads"] = uint64(s.zeroReads)
 	st.Faults["short_reads"] = uint64(s.shortReads)
 	st.Faults["data_returned_with_EOF"] = uint64(s.eofWithData)
@@ -942,6 +962,7 @@ func minimiseIO(c0 *IOCase, class, sig string) *IOCase {
 		try(func(c *IOCase) { c.ZeroReadAt = nil })
 		try(func(c *IOCase) { c.EOFWithData = false })
 		try(func(c *IOCase) { c.StdinNoise = "" })
+		try(func(c *IOCase) { c.Env = nil })
 		try(func(c *IOCase) { c.Chunk, c.K = "all", 0 })
 		try(func(c *IOCase) { c.InputFlag = "-input" })
 		if cur.FailAfter < 0 && cur.OpenFault == "" {
